@@ -1,5 +1,7 @@
 import GarbleVerif.Proofs.ArithMul
 import GarbleVerif.Proofs.ArithDiv
+import GarbleVerif.Proofs.ArithSMul
+import GarbleVerif.Proofs.ArithShift
 /-!
 # C03 — integer operators and casts are bit-exact at every width
 
@@ -8,12 +10,14 @@ compiled circuits by the behavioural correspondence of `./check C03`). The theor
 compare it with exact integer arithmetic (`toNat`, `toInt`) — **for every width `n ≥ 1`**, not
 only 8/16/32/64, and all operand values.
 
-Proved: `+` (unsigned, signed), `-` (unsigned, signed), unary `-`, unsigned `*`, `/` and `%`
+Proved: `+` (unsigned, signed), `-` (unsigned, signed), unary `-`, `*` (unsigned: array multiplier;
+signed: magnitudes multiplied, sign restored, overflow exactly when not representable), `/` and `%`
 (unsigned: the restoring divider; signed: magnitudes divided, signs restored, `MIN / -1` excluded),
-`<`/`>` (unsigned, signed), `==`/`!=`, `&`/`|`/`^`/`!`, every cast.
-Not yet proved — kept as statements, explored exhaustively at 8 bits and at boundary values for
-wider types by the check: signed `*`, `<<`/`>>`, and the multiplication-by-literal rewrite
-(`C03_*_Statement`).
+`<`/`>` (unsigned, signed), `==`/`!=`, `&`/`|`/`^`/`!`, every cast,
+`<<` / `>>` (8, 16, 32, 64 bits: overflow ⇔ amount ≥ width, otherwise multiplication / floor division by
+`2^amount`).
+Not proved: the multiplication-by-literal rewrite (`constMul`: repeated checked addition), explored
+exhaustively at 8 bits and at boundary values for wider types by the check, like every other operator.
 -/
 namespace GV
 namespace Arith
@@ -105,21 +109,24 @@ theorem C03_sdiv (a b : Bool) (x y : List Bool) (h : x.length = y.length) (hy : 
     toInt (sdiv (a :: x) (b :: y)).2 = Int.tmod (toInt (a :: x)) (toInt (b :: y)) :=
   sdiv_spec a b x y h hy hmin
 
-/-! ### statements not yet proved (full statements kept visible) -/
-
-def C03_mul_signed_Statement : Prop :=
-  ∀ (a b : Bool) (x y : List Bool), x.length = y.length →
+/-- signed `*` on `n + 1` bits: exact product unless the flag is set; flag ⇔ the exact product is outside
+`[-2^n, 2^n)` (so `MIN * 1`, `-1 * MIN`… are handled exactly: `-2^n` is representable, `2^n` is not) -/
+theorem C03_mul_signed (a b : Bool) (x y : List Bool) (h : x.length = y.length) :
     let r := mul (a :: x) (b :: y) true
     (r.2 = false → toInt r.1 = toInt (a :: x) * toInt (b :: y)) ∧
     (r.2 = true ↔ (toInt (a :: x) * toInt (b :: y) < -(2 : Int) ^ x.length ∨
-      (2 : Int) ^ x.length ≤ toInt (a :: x) * toInt (b :: y)))
+      (2 : Int) ^ x.length ≤ toInt (a :: x) * toInt (b :: y))) :=
+  mul_signed a b x y h
 
-def C03_shift_Statement : Prop :=
-  ∀ (left sx : Bool) (x amt : List Bool), x.length ∈ [8, 16, 32, 64] → amt.length = 8 →
+/-- `<<` and `>>` at the four integer widths: the overflow flag is set exactly when the amount is at least the
+width; otherwise `<<` multiplies by `2^amount` modulo `2^n` and `>>` divides by `2^amount` rounding down
+(logical shift on unsigned, arithmetic shift on signed operands) -/
+theorem C03_shift (left sx : Bool) (x amt : List Bool) (hx : x.length ∈ [8, 16, 32, 64]) (ha : amt.length = 8) :
     ((shift left sx x amt).2 = true ↔ x.length ≤ toNat amt) ∧
     (toNat amt < x.length →
       (left = true → toNat (shift left sx x amt).1 = (toNat x * 2 ^ toNat amt) % 2 ^ x.length) ∧
-      (left = false → valOf sx (shift left sx x amt).1 = valOf sx x / (2 : Int) ^ toNat amt))
+      (left = false → valOf sx (shift left sx x amt).1 = valOf sx x / (2 : Int) ^ toNat amt)) :=
+  shift_spec left sx x amt hx ha
 
 /-! ### non-vacuity / sanity on concrete operands (8 bits) -/
 
